@@ -1,10 +1,155 @@
-//! Multi-phase scenarios that do not fit the single-phase program model: C15 (panics) and C17 (pool maximum changes between phases)
+//! Multi-phase scenarios: C15 (a panicking operation is contained) and C17 (pool maximum changes between phases)
 
+use crate::gen;
+use crate::model::*;
+use crate::noise;
 use crate::rt::Rng;
 use crate::run::{Opts, RunResult};
 
-pub fn run_special(profile: &'static str, rng: &mut Rng, run_seed: u64, opts: &Opts) -> RunResult {
-    let cfg = crate::gen::cfg_for(profile, !opts.native);
-    let prog = crate::gen::mixed(rng, profile, &cfg, run_seed);
-    crate::run::run_program(prog, opts, crate::noise::Plan::None)
+/// C15: phase 0 makes one operation of object 0 panic in a chosen context; afterwards (once the unwinding thread is gone) every
+/// scheduling attempt on object 0 must fail loudly, the healthy objects must work, and the pool must still hold its maximum
+pub fn gen_c15(rng: &mut Rng, run_seed: u64, miri: bool) -> Program {
+    let mut prog = Program::new(run_seed, "C15", "panic");
+    prog.panics = true;
+    prog.pool = rng.range(1, if miri { 2 } else { 3 }) as usize;
+    prog.pool_mode = *rng.pick(&[PoolMode::Warm, PoolMode::Fresh, PoolMode::Eager]);
+    let healthy = prog.pool;
+    prog.n_obj = 1 + healthy;
+    let variant = rng.below(7);
+    let mut t0 = vec![];
+    // sometimes some ordinary work on the victim first
+    for _ in 0..rng.below(3) { let id = prog.add_op(0, Kind::Desync, Disp::None, vec![Step::Touch]); t0.push(TAct::Op(id)); }
+    let mut old_future = None;
+    match variant {
+        0 => { prog.template = "panic_in_desync_job"; let id = prog.add_op(0, Kind::Desync, Disp::None, vec![Step::Touch, Step::Panic]); t0.push(TAct::Op(id)); }
+        1 => { prog.template = "panic_in_sync_closure"; let id = prog.add_op(0, Kind::Sync, Disp::None, vec![Step::Touch, Step::Panic]); t0.push(TAct::Op(id)); }
+        2 | 3 => {
+            // The pool is saturated by blocked bodies on the healthy objects, so the victim's queue can only be run by callers.
+            // 2: a queued job panics while the caller's sync drains the queue. 3: a caller that found the queue busy takes it over
+            //    when it is released and runs its own panicking closure (the stealing-waiter path).
+            prog.hold_phase = true;
+            prog.held_objs = (1..=healthy).collect();
+            let mut holder = vec![]; let mut healthy_holds = vec![]; let mut wait_saturated = vec![];
+            for o in 1..=healthy { let h = prog.new_hold(); healthy_holds.push(h); let id = prog.add_op(o, Kind::Desync, Disp::None, vec![Step::Touch, Step::Hold(h)]); holder.push(TAct::Op(id)); wait_saturated.push(TAct::WaitStart(id)); }
+            prog.threads.push(holder);
+            // the victim is only touched once every pool thread is inside a blocked body
+            t0.clear();
+            t0.extend(wait_saturated);
+            for _ in 0..rng.below(3) { let id = prog.add_op(0, Kind::Desync, Disp::None, vec![Step::Touch]); t0.push(TAct::Op(id)); }
+            if variant == 2 {
+                prog.template = "panic_in_job_drained_by_sync_pool_saturated";
+                let id = prog.add_op(0, Kind::Desync, Disp::None, vec![Step::Touch, Step::Panic]); t0.push(TAct::Op(id));
+                let id = prog.add_op(0, Kind::Sync, Disp::None, vec![Step::Touch]); t0.push(TAct::Op(id));
+                prog.hold_groups.push((healthy_holds, None));
+                prog.hold_wait_threads = Some(vec![0]);
+            } else {
+                prog.template = "panic_in_stealing_sync_waiter_pool_saturated";
+                let hx = prog.new_hold();
+                let runner = prog.add_op(0, Kind::Sync, Disp::None, vec![Step::Touch, Step::Hold(hx), Step::Touch]); t0.push(TAct::Op(runner));
+                let waiter = prog.add_op(0, Kind::Sync, Disp::None, vec![Step::Touch, Step::Panic]);
+                prog.threads.push(vec![TAct::WaitStart(runner), TAct::Op(waiter)]);
+                prog.hold_wait_threads = Some(vec![]);
+                prog.hold_wait_invoked = vec![waiter];
+                prog.hold_groups.push((vec![hx], Some(waiter)));
+                prog.hold_groups.push((healthy_holds, None));
+            }
+        }
+        4 => { prog.template = "panic_in_awaited_future"; let id = prog.add_op(0, Kind::FutDesync, Disp::Await, vec![Step::Touch, Step::Yield, Step::Panic]); t0.push(TAct::Op(id)); }
+        5 => { prog.template = "panic_in_detached_future"; let id = prog.add_op(0, Kind::FutDesync, Disp::Detach, vec![Step::Touch, Step::Yield, Step::Panic]); t0.push(TAct::Op(id)); }
+        _ => {
+            prog.template = "panic_with_older_future_pending";
+            let g = prog.new_gate();
+            let id = prog.add_op(0, Kind::FutDesync, Disp::Detach, vec![Step::Touch, Step::Gate(g), Step::Panic]); t0.push(TAct::Op(id));
+            let older = prog.add_op(0, Kind::FutDesync, Disp::Hold, vec![Step::Touch]); t0.push(TAct::Op(older));
+            old_future = Some(older);
+        }
+    }
+    // attempts on the panicked object, by the same thread that holds the older future (phase 1 is a continuation of thread 0)
+    let mut kinds: Vec<u8> = vec![0, 1, 2, 3, 4, 5];
+    rng.shuffle(&mut kinds);
+    kinds.truncate(rng.range(2, 6) as usize);
+    let mut attempts: Vec<TAct> = kinds.iter().map(|k| TAct::Attempt(*k, 0)).collect();
+    if let Some(of) = old_future {
+        // the older future is held by thread 0 of phase 0; joining happens there, after a blocking wait for the panic: simplest is to
+        // let thread 0 itself make the attempts once the gate has fired and the panic has happened
+        t0.push(TAct::Stash(of));
+        attempts.insert(rng.below(attempts.len() as u64 + 1) as usize, TAct::AttemptJoin(of));
+    }
+    prog.threads.insert(0, t0);
+    prog.phases.push(Phase { name: "attempts_on_panicked_object", wait_pool_exit: true, threads: vec![attempts], ..Default::default() });
+
+    // healthy objects: ordinary work scheduled after the unwinding thread is gone
+    let mut ht = vec![];
+    for _ in 0..rng.range(1, if miri { 1 } else { 2 }) {
+        let mut acts = vec![];
+        for _ in 0..rng.range(1, if miri { 2 } else { 5 }) {
+            let o = 1 + rng.below(healthy as u64) as usize;
+            let r = rng.below(10);
+            let id = if r < 4 { prog.add_op(o, Kind::Desync, Disp::None, vec![Step::Touch]) }
+                     else if r < 7 { prog.add_op(o, Kind::Sync, Disp::None, vec![Step::Touch]) }
+                     else if r < 9 { prog.add_op(o, Kind::FutDesync, Disp::Detach, vec![Step::Touch, Step::Yield, Step::Touch]) }
+                     else { prog.add_op(o, Kind::FutDesync, Disp::Await, vec![Step::Touch]) };
+            acts.push(TAct::Op(id));
+        }
+        ht.push(acts);
+    }
+    prog.phases.push(Phase { name: "healthy_objects_after_the_panic", threads: ht, ..Default::default() });
+
+    // capacity probe: the pool must still be able to hold its maximum of simultaneously blocked bodies
+    let mut occupy = vec![]; let mut acts = vec![];
+    for o in 1..=healthy {
+        let h = prog.new_hold();
+        let id = prog.add_op(o, Kind::Desync, Disp::None, vec![Step::Touch, Step::Hold(h)]);
+        acts.push(TAct::Op(id)); occupy.push(h);
+    }
+    prog.phases.push(Phase { name: "capacity_probe", threads: vec![acts], occupy, ..Default::default() });
+    gen::finish_firer(rng, &mut prog, 0);
+    prog
+}
+
+/// C17: bursts of scheduling calls racing to spawn, with the maximum lowered and raised between phases
+pub fn gen_c17(rng: &mut Rng, run_seed: u64, miri: bool) -> Program {
+    let mut prog = Program::new(run_seed, "C17", "pool_maximum_changes");
+    prog.pool = rng.range(1, 3) as usize;
+    prog.pool_mode = *rng.pick(&[PoolMode::Fresh, PoolMode::Fresh, PoolMode::Warm]);
+    prog.n_obj = 3;
+    let burst = |prog: &mut Program, rng: &mut Rng, max: usize| -> Vec<Vec<TAct>> {
+        let mut threads = vec![];
+        for _ in 0..rng.range(2, if miri { 2 } else { 4 }) {
+            let mut acts = vec![]; let mut touched = vec![];
+            for _ in 0..rng.range(1, if miri { 2 } else { 4 }) {
+                let o = rng.below(3) as usize;
+                let r = rng.below(10);
+                let id = if r < 6 { prog.add_op(o, Kind::Desync, Disp::None, vec![Step::Touch]) }
+                         else if r < 8 { prog.add_op(o, Kind::FutDesync, Disp::Detach, vec![Step::Touch, Step::Yield, Step::Touch]) }
+                         else { prog.add_op(o, Kind::Sync, Disp::None, vec![Step::Touch]) };
+                if !touched.contains(&o) { touched.push(o); }
+                acts.push(TAct::Op(id));
+            }
+            if max == 0 { for o in touched { let id = prog.add_op(o, Kind::Sync, Disp::None, vec![Step::Touch]); acts.push(TAct::Op(id)); } }
+            threads.push(acts);
+        }
+        threads
+    };
+    let p0 = prog.pool;
+    prog.threads = burst(&mut prog, rng, p0);
+    let mut cur = p0;
+    for _ in 0..rng.range(1, if miri { 2 } else { 3 }) {
+        let mut next = rng.below(4) as usize;
+        if next == cur { next = (cur + 1) % 4; }
+        let threads = burst(&mut prog, rng, next);
+        prog.phases.push(Phase { name: "after_maximum_change", reconfig: Some(next), threads, ..Default::default() });
+        cur = next;
+    }
+    gen::finish_firer(rng, &mut prog, 0);
+    prog
+}
+
+pub fn run_special(profile: &'static str, rng: &mut Rng, run_seed: u64, opts: &Opts, noise_family: &str, est_points: u64) -> RunResult {
+    let miri = !opts.native;
+    let prog = if profile == "C15" { gen_c15(rng, run_seed, miri) } else { gen_c17(rng, run_seed, miri) };
+    if let Err(e) = gen::validate(&prog) { eprintln!("GENERATOR BUG: {}", e); std::process::exit(2); }
+    let plan = if !opts.native || noise_family == "off" { noise::Plan::Off } else { noise::choose_plan(rng, noise_family, est_points) };
+    if opts.verbose { let mut j = crate::rt::Json::new(); prog.to_json(&mut j); eprintln!("RUN plan {:?} program {}", plan, j.s); }
+    crate::run::run_program(prog, opts, plan)
 }
